@@ -240,16 +240,27 @@ func (n *AbsfsNFS) UpdatePolicyOptions(newPolicy PolicyOptions) error {
 	n.policy.Store(&snapshot)
 
 	// Update rate limiter while still holding the write lock (H2 fix)
+	n.rateLimiterMu.Lock()
 	if newPolicy.EnableRateLimiting && newPolicy.RateLimitConfig != nil {
 		n.rateLimiter = NewRateLimiter(*newPolicy.RateLimitConfig)
 	} else if !newPolicy.EnableRateLimiting {
 		n.rateLimiter = nil
 	}
+	n.rateLimiterMu.Unlock()
 
 	// Resume accepting requests
 	n.policyRWMu.Unlock()
 
 	return nil
+}
+
+// currentRateLimiter returns the rate limiter in force (nil while rate
+// limiting is off). Connection loops call it for every request, so a policy
+// update also governs connections that were opened before it.
+func (n *AbsfsNFS) currentRateLimiter() *RateLimiter {
+	n.rateLimiterMu.RLock()
+	defer n.rateLimiterMu.RUnlock()
+	return n.rateLimiter
 }
 
 // getStructuredLogger returns the current structured logger safely.
